@@ -19,6 +19,12 @@ def lock_constructor(ctx, rep):
     inlined cone (itself or private helpers it calls)"""
     aggs = ctx.all_aggregates(r"file_lock::FileLock$")
     bodies = sorted({b["key"] for b, bi, si, s in aggs})
+    if len(bodies) > 1:
+        # several functions build a lock value: the constructor is the one that takes the lock; the others make lock values without
+        # locking (reported by R13.4: FileLock{..} outside the lock constructor)
+        locking = [k for k in bodies if ctx.product(k).calls(ANY_LOCK_EVENT)]
+        if len(locking) == 1:
+            bodies = locking
     if not rep.expect("R13.3", "lock constructor", len(bodies) == 1,
                       "expected exactly one function building the lock value, found %s" % bodies):
         return None
@@ -258,6 +264,37 @@ def run(ctx, rep):
                               "the directory lock's code consults / updates state shared by the whole process: ownership is then decided by "
                               "that state and not by flock alone", where=gk.where(n))
     rep.floor("R13.6", "call sites of the lock's constructor and Drop examined", n6, 6)
+
+    # R13.7: who may hold the directory lock
+    rep.rule("R13.7", "the directory lock has exactly one holder per open: the only struct fields whose type mentions FileLock are the lock fields of "
+                      "RaftLog and Dump, and their type is FileLock itself - not Arc / Rc / Option / a reference (a shared or duplicated lock "
+                      "outlives its owner, or is released under it: `flock` is released for every duplicate by the first explicit unlock, and "
+                      "held until the last clone of an Arc is gone)")
+    holders = []
+    for adt_name, a in sorted(ctx.facts.adts.items()):
+        if adt_name.startswith("testing::"):
+            continue
+        for v in a["variants"]:
+            for f in v["fields"]:
+                if re.search(r"(^|[^\w])(\w+::)*FileLock\b", f["ty"]):
+                    holders.append((adt_name, f["name"], f["ty"]))
+    n_h = 0
+    for adt_name, fname, ty in holders:
+        n_h += 1
+        where = "%s:%s" % (ctx.facts.adts[adt_name].get("file", ""), ctx.facts.adts[adt_name].get("line", ""))
+        owner_ok = adt_name in ("raft_log::raft_log::RaftLog", "raft_log::dump::Dump")
+        ty_ok = bool(re.match(r"^(\w+::)*FileLock$", ty))
+        if owner_ok and ty_ok:
+            rep.ok("R13.7", "%s.%s: %s" % (adt_name.split("::")[-1], fname, ty), "owned lock", where=where, nontrivial=False)
+        elif not owner_ok:
+            rep.violation("R13.7", "lock-held-by:%s.%s" % (adt_name.split("::")[-1], fname), "%s.%s: %s" % (adt_name, fname, ty),
+                          "a type other than RaftLog / Dump holds (a handle to) the directory lock: the directory stays locked after its "
+                          "owner was dropped, or is unlocked under a living owner when this value goes away", where=where)
+        else:
+            rep.violation("R13.7", "lock-field-type:%s.%s" % (adt_name.split("::")[-1], fname), "%s.%s: %s" % (adt_name, fname, ty),
+                          "the owner does not own the lock value itself (%s): the lock can be shared with, or outlived by, something else" % ty,
+                          where=where)
+    rep.floor("R13.7", "fields holding the directory lock", n_h, 2)
 
     # no Clone for FileLock, no try_clone, unlock only in Drop
     for im in ctx.facts.impls:
